@@ -40,3 +40,10 @@ Theorem C17s_signed_vbyte_bytes_roundtrip : forall y rest, (- 2 ^ 63 <= y < 2 ^ 
      exists x, vbyte_read_le (bs ++ rest) = Ok (x, rest) /\ signed_of_nat x = y).
 Proof. exact SignedCodes.signed_vbyte_bytes_roundtrip. Qed.
 Print Assumptions C17s_signed_vbyte_bytes_roundtrip.
+
+Theorem C17s_signed_len_monotone : forall E id p y1 y2,
+  (- 2 ^ 63 <= y1 < 2 ^ 63)%Z -> (- 2 ^ 63 <= y2 < 2 ^ 63)%Z -> (Z.abs y1 < Z.abs y2)%Z ->
+  valid id p (nat_of_signed y1) -> valid id p (nat_of_signed y2) ->
+  LEN (code_cw E id p (nat_of_signed y1)) <= LEN (code_cw E id p (nat_of_signed y2)).
+Proof. exact SignedCodes.signed_len_monotone. Qed.
+Print Assumptions C17s_signed_len_monotone.
